@@ -112,6 +112,8 @@ def repair(o):
         for k in o:
             repair(k)
     elif isinstance(o, dict):
+        if "v" in o and not isinstance(o["v"], int):   # the wire form of a Node
+            o["v"] = 0
         for k in o.values():
             repair(k)
     return o
@@ -221,6 +223,13 @@ BROKEN = {
     "Node": ["Node(1, [Node('bad')])", "Node(1, [Node(2, [Node(object())])])", "Node('bad')"],
     "list[Node]": ["[Node(1, [Node('bad')])]", "[Node(1), Node(2, [Node(None)])]"],
     "dict[str, Node]": ["{'r': Node(1, [Node('bad')])}"],
+}
+# ... and wire inputs with an invalid member below a recursive position (the unmarshal direction of the same rule)
+BROKEN_IN = {
+    "Node": ["{'v': 1, 'kids': [{'v': 'bad', 'kids': []}]}", "{'v': 1, 'kids': [{'v': 2, 'kids': [{'v': None, 'kids': []}]}]}",
+             "{'v': 1, 'kids': [{'v': 2, 'kids': []}, {'v': [], 'kids': []}]}"],
+    "list[Node]": ["[{'v': 1, 'kids': [{'v': 'bad', 'kids': []}]}]", "[{'v': 1, 'kids': []}, {'v': 2, 'kids': [{'v': 'x', 'kids': []}]}]"],
+    "dict[str, Node]": ["{'r': {'v': 1, 'kids': [{'v': 'bad', 'kids': []}]}}"],
 }
 PARTNERS = [
     {"Union[int, str]", "Union[str, int]"}, {"int | None | str", "str | None | int"}, {"Literal[1, 2]", "Literal[2, 1]"},
@@ -547,12 +556,17 @@ def machine(col, seed, n_examples, steps):
                 src = srcs[i % len(srcs)]
                 self._call(op, key, eval(src, pool()), src)  # noqa: S307
 
-        @rule(key=st.sampled_from(sorted(BROKEN)), i=st.integers(0, 3), op=st.sampled_from(["marshal", "encode"]))
-        def fail_repair_retry(self, key, i, op):
-            """a call that fails on an invalid member, the caller repairs that very object, the same call again"""
-            src = BROKEN[key][i % len(BROKEN[key])]
+        @rule(key=st.sampled_from(sorted(BROKEN)), i=st.integers(0, 3), op=st.sampled_from(["marshal", "encode", "unmarshal", "unmarshal"]),
+              retry=st.booleans())
+        def fail_repair_retry(self, key, i, op, retry):
+            """a call that fails on an invalid member, (the very same call again,) the caller repairs that very object,
+            the same call again"""
+            table = BROKEN_IN if op == "unmarshal" else BROKEN
+            src = table[key][i % len(table[key])]
             x = eval(src, pool())  # noqa: S307
             self._call(op, key, x, src)
+            if retry:
+                self._call(op, key, x, src)
             pool()["repair"](x)
             self.dirty = True
             col.label("op:fail-repair-retry")
